@@ -649,6 +649,9 @@ Definition wf_fin_b (sc : scenario) (c0 : cluster) : bool :=
   forallb (fun w => forallb (fin_obs_ok sc c0) (w_deliv w)) (e_waits (sc_env sc)).
 Fixpoint nodupb (l : list nat) : bool :=
   match l with [] => true | x :: t => negb (memn x t) && nodupb t end.
+(* a tracked custom resource of the cluster has its CRD in the cluster (its kind is known to a freshly reset mapper) *)
+Definition wf_crd_b (sc : scenario) (c0 : cluster) : bool :=
+  forallb (fun c => negb (memn (c_id c) (prev_of c0)) || kind_known sc (live_crds sc c0) (c_id c)) (objs c0).
 Definition wf_b (sc : scenario) (c0 : cluster) : bool :=
   (o_destroy (sc_opts sc) || nodupb (map l_id (sc_local sc)))
   && nodupb (map c_id (objs c0))
@@ -659,7 +662,8 @@ Definition wf_b (sc : scenario) (c0 : cluster) : bool :=
      | _, _ => true
      end
   && (negb (o_destroy (sc_opts sc)) || o_prune (sc_opts sc))
-  && wf_fin_b sc c0.
+  && wf_fin_b sc c0
+  && wf_crd_b sc c0.
 
 (* ---- C06 seen through the pipeline -------------------------------------------------
    The C06 check proper drives WaitTask and the runner directly (Model/WaitTask.v).  This
